@@ -1262,6 +1262,34 @@ func (k *checker) inject(o oracle, withVal bool) {
 		evN[i] = stripVal(e)
 	}
 	c.Check(balanced(tr.events), "events under injection are not balanced/nested", in, "")
+	// clauses that hold for every oracle (C32.result_is_last_error, hard_answer_stops,
+	// nonnil_push_skips_children, nonnil_child_ends_iteration)
+	lastErr, stopped := "ok", false
+	for i, e := range evN {
+		a, answered := o[i]
+		if stopped && e[0] == '+' {
+			c.Check(false, "a push is made after a callback answered Terminate or an error", in, "")
+			break
+		}
+		if !answered {
+			continue
+		}
+		if a.kind == 'e' {
+			lastErr = "err" + strconv.Itoa(a.code)
+		}
+		if a.kind != 'b' {
+			stopped = true
+		}
+		if i+1 < len(evN) {
+			if e[0] == '+' && evN[i+1] != "-"+e[1:] {
+				c.Check(false, "a push answered with a non-nil error is not followed immediately by its pop", in, "")
+			}
+			if e[0] == '-' && evN[i+1][0] != '-' {
+				c.Check(false, "a pop answered with a non-nil error is followed by the push of a sibling", in, "")
+			}
+		}
+	}
+	c.Check(tr.result == lastErr, "Range returns "+tr.result+" but the last error a callback returned is "+lastErr, in, "")
 	if len(o) == 1 {
 		for pos, a := range o {
 			if pos >= len(k.fulN) {
